@@ -17,6 +17,7 @@ DOMAINS = {
     "rangeq": {"timeout": 2400},
     "terms": {"timeout": 2400},
     "bitset": {"timeout": 2400},
+    "offline": {"timeout": 2400},
 }
 
 RANGE_NOTE = ("Trusted: Coq kernel, ExtrOcamlBasic extraction, harness/driver. Range<V> is modelled by the slice of its segments "
@@ -81,6 +82,17 @@ PROPS = {
         "exhaustive": True,
         "rule": "all 8 singletons; pairs (a,b) of 8-bit masks: all with a or b in {0..3,252..255} plus a seeded quarter of the rest (quick) / all 65536 (thorough); BitSet8 terms 20000 (quick) / 200000 (thorough). distinct = distinct case text; all non-trivial.",
         "assumptions": ["versions of BitSet8 are 0..7 only (1u8 << v overflows beyond)"],
+    },
+    "C18": {
+        "props": "Props/Properties_C18.v",
+        "level": "proof",
+        "technique": "Coq proof by induction over add_dependencies histories (last-write-wins map, ascending versions, newest-first choice) + exhaustive short histories correspondence",
+        "level_text": "6 Coq theorems for every history of add_dependencies calls: get_dependencies returns the (de-duplicated, later entry wins) dependencies of the last call for (p,v) and Unavailable otherwise; packages()/versions(p) enumerate exactly what was added, versions strictly ascending, None iff never added; choose_version returns the greatest added version inside the set or None; prioritize counts matching versions and fewer matches compare strictly greater (Reverse). Tie: all histories of <= 2 calls (thorough 3) over 30 distinct calls with overwrites and duplicate dependency entries, seeded longer ones, followed by all queries; compared with the extracted model and with an independent reference map.",
+        "level_note": "Trusted: Coq kernel, extraction, harness/driver. FxHashMap / BTreeMap are modelled as association lists (iteration order of the dependency map is not modelled; results are compared as sorted maps); packages are numbers and versions integers in the model.",
+        "domains": ["offline"],
+        "exhaustive": True,
+        "rule": "30 distinct add_dependencies calls (2 packages x 3 versions x 5 dependency lists incl. duplicates and unknown packages): all sequences of length 0..2 (quick) / 0..3 (thorough) + seeded sequences of length 3..7; after each history all queries (deps for 3x3 pairs incl. never-added, packages, versions, choose/prioritize for 6 sets). distinct = distinct history; non-trivial = histories with at least one call.",
+        "assumptions": ["hash-map iteration order is irrelevant to the compared observations"],
     },
     "C20": {
         "props": "Props/Properties_C20.v",
